@@ -6,7 +6,7 @@ from dataclasses import dataclass
 from typing import Any, Dict, Optional
 
 from asyncssh.connection import SSHClientConnection, connect
-from asyncssh.misc import ConnectionLost, PermissionDenied
+from asyncssh.misc import ConnectionLost, HostKeyNotVerifiable, KeyExchangeFailed, PermissionDenied
 from asyncssh.stream import SSHReader, SSHWriter
 
 from scrapli.decorators import timeout_wrapper
@@ -157,8 +157,13 @@ class AsyncsshTransport(AsyncTransport):
             self._verify_key()
 
         # we already fetched host/port/user from the user input and/or the ssh config file, so we
-        # want to use those explicitly. likewise we pass config file we already found. set known
-        # hosts and agent to None so we can not have an agent and deal w/ known hosts ourselves.
+        # want to use those explicitly. likewise we pass config file we already found. set agent to
+        # None so we can not have an agent. when strict key checking is enabled we hand asyncssh
+        # the known hosts file we already resolved so that it verifies the server key during the
+        # key exchange -- that is, *before* any credentials are sent to the server (our own check
+        # of the key value can only happen once `connect` has returned, which is after
+        # authentication); when strict key checking is disabled known hosts is None so asyncssh
+        # does no verification.
         # to use ssh-agent either pass an empty tuple (to pick up ssh-agent socket from
         # SSH_AUTH_SOCK), or pass an explicit path to ssh-agent socket should be provided as part
         # of transport_options -- in either case these get merged into the dict *after* we set the
@@ -168,7 +173,11 @@ class AsyncsshTransport(AsyncTransport):
             "host": self._base_transport_args.host,
             "port": self._base_transport_args.port,
             "username": self.plugin_transport_args.auth_username,
-            "known_hosts": None,
+            "known_hosts": (
+                self.plugin_transport_args.ssh_known_hosts_file
+                if self.plugin_transport_args.auth_strict_key
+                else None
+            ),
             "agent_path": None,
             "config": self.plugin_transport_args.ssh_config_file,
         }
@@ -196,6 +205,19 @@ class AsyncsshTransport(AsyncTransport):
                 connect(**conn_args),
                 timeout=self._base_transport_args.timeout_socket,
             )
+        except (HostKeyNotVerifiable, KeyExchangeFailed, ConnectionLost) as exc:
+            if not self.plugin_transport_args.auth_strict_key:
+                raise
+            # with strict key checking asyncssh only accepts (and only negotiates the algorithms
+            # of) the keys known for this host, so failing here means the server did not present
+            # a key matching known hosts (a server without any key of a known type fails the key
+            # exchange or drops the connection)
+            msg = (
+                f"{self._base_transport_args.host} in known_hosts but public key does not match or "
+                "key exchange could not be completed!"
+            )
+            self.logger.critical(msg)
+            raise ScrapliAuthenticationFailed(msg) from exc
         except PermissionDenied as exc:
             msg = "all authentication methods failed"
             self.logger.critical(msg)
